@@ -18,6 +18,20 @@ RULE = ("well-formed generic modules/vectors over every enzyme geometry (exactly
 ASSUMPTIONS = ["the record carries exactly the two recognition sites of the definition"]
 
 
+def geom_part(wd, site, kind):
+    """the plasmid reads, from some position on: the site, two letters or more, the site on the other strand, two
+    letters or more (a vector: the two sites exchanged) — each site once"""
+    n, r_ = len(wd), gen.rc(site)
+    d = wd * 2
+    i = [p for p in range(n) if d[p:p + len(site)] == site]
+    j = [p for p in range(n) if d[p:p + len(r_)] == r_]
+    if len(i) != 1 or len(j) != 1:
+        return False
+    first, second = (i[0], j[0]) if kind == "M" else (j[0], i[0])
+    gap = (second - first - len(site)) % n
+    return gap >= 2 and gap + 2 * len(site) + 2 <= n
+
+
 def check_typing(ctx, case):
     cls = asm.cls_by_name(case["cls"])
     wd = case["word"]
@@ -33,6 +47,9 @@ def check_typing(ctx, case):
                 cls.__name__, cls.cutter, wd, a[0]), case)
     else:
         two_sites = gen.circ_count(wd.upper(), site) == 1 and gen.circ_count(wd.upper(), gen.rc(site)) == 1
+    if case.get("geom") and two_sites and geom_part(wd.upper(), site, case["cls"].split(":")[1]) and a[0] != "valid":
+        ctx.fail("{} rejects a plasmid made of the site of {}, an insert and the site on the other strand: {!r} ({})".format(
+            cls.__name__, cls.cutter, wd, a[0]), case)
     if not two_sites:
         # outside the property's hypothesis (a mutation created or destroyed a site: with several fits the
         # leftmost one on each strand need not be mirror images); correspondence only
@@ -236,6 +253,17 @@ def run(ctx):
             wd = gen.rc(wd)
         ctx.guard(check_typing, {"cls": "generic:{}:{}".format(kind, enz), "insite": True,
                                  "word": gen.rot(wd, rng.randrange(len(wd)))})
+        # … and a plasmid made from the site alone, without asking the class what it wants: the site, an insert, the
+        # site on the other strand (a vector: the other way round) is a part of that cutter's generic class
+        s_, r_ = str(enz.site), gen.rc(str(enz.site))
+        body = gen.rnd_avoid(rng, rng.randint(2, 9), (s_, r_))     # a cut at the very end of the site asks for a letter beyond it
+        rest = gen.rnd_avoid(rng, rng.randint(2, 8), (s_, r_))
+        wd = (s_ + body + r_ + rest) if kind == "M" else (r_ + body + s_ + rest)
+        if gen.circ_count(wd, s_) == 1 and gen.circ_count(wd, r_) == 1:
+            if rng.random() < 0.5:
+                wd = gen.rc(wd)
+            ctx.guard(check_typing, {"cls": "generic:{}:{}".format(kind, enz), "insite": True, "geom": True,
+                                     "word": gen.rot(wd, rng.randrange(len(wd)))})
     for enz in asm.pick_enzymes(rng, ctx.budget(250, 10000)):
         g = asm.gen_wellformed(rng, enz, rng.randint(1, 4))
         if g is None:
